@@ -378,3 +378,4 @@ fn node_needs_merging_arith() {
 }
 
 
+
